@@ -68,7 +68,8 @@ def run_offset_rules(ctx, rep):
     ev = Evaluator(f)
 
     writers = tracker_writers(ctx)
-    rep.check(writers == {TRK + "::next", TRK + "::update_mem_address"}, "R3.0", "R3.0|tracker_writers",
+    # (one of the two may be written in terms of the other)
+    rep.check(bool(writers) and writers <= {TRK + "::next", TRK + "::update_mem_address"}, "R3.0", "R3.0|tracker_writers",
               "tracker address is written only by %s" % sorted(w.split("::")[-1] for w in writers), TRK,
               "unexpected set of tracker writers: %s" % sorted(writers))
     adv = advancing_fns(ctx, writers)
@@ -237,7 +238,7 @@ def run_offset_rules(ctx, rep):
               AP, "unexpected function(s) reading from the input: %s" % sorted(readers - allowed))
     # tracker.next/update callers
     for w, exp in ((TRK + "::next", {AP + "input_scanner::InputScanner::<R>::seek_to_next_rdh"}), (TRK + "::update_mem_address", {SCAN + "load_cdp"})):
-        callers = {path for path, bb, t, cal, c in cg.call_sites(lambda c, w=w: c == w, within=reach)}
+        callers = {path for path, bb, t, cal, c in cg.call_sites(lambda c, w=w: c == w, within=reach) if not path.startswith(TRK + "::")}
         rep.check(callers == exp, "R3.3", "R3.3|who_may_advance|%s" % w.split("::")[-1], "%s is called only from %s" % (w.split("::")[-1], sorted(x.split("::")[-1] for x in exp)), w,
                   "callers of %s: %s" % (w, sorted(callers)))
 
